@@ -4,7 +4,7 @@ Four libFuzzer targets on the `fuzz` flavor (NDEBUG + ASan + UBSan) with online 
 generated seed corpus (c19_corpus.py), bounded by -runs; every artifact is re-run alone to obtain a stable violation key.
 A shape generator (c19_yaml.py) feeds well-formed YAML build descriptions to `llbuild buildsystem parse` (asan and fuzz flavors).
 """
-import collections, hashlib, json, os, re, shutil, time
+import collections, hashlib, json, os, re, shutil, threading, time
 import vlib
 import c19_corpus, c19_yaml
 
@@ -13,7 +13,7 @@ CORE_LIBS = ["llbuildCore", "llbuildBasic", "llvmSupport"]
 TARGETS = [  # name, libs, dictionary, jobs (of 16 cores), runs per job quick / thorough, runs per process
     # fz_manifest costs ~1 ms per execution (two parser passes + loader under ASan) and Manifest objects leak by design of the
     # loader (bump-allocated Commands are never destroyed), so its processes are recycled every 40,000 executions
-    ("fz_manifest", NINJA_LIBS, "ninja.dict", 7, 30000, 900000, 40000),
+    ("fz_manifest", NINJA_LIBS, "ninja.dict", 7, 30000, 750000, 40000),
     ("fz_lexer", NINJA_LIBS, "ninja.dict", 4, 400000, 12000000, 4000000),
     ("fz_makedeps", CORE_LIBS, "makedeps.dict", 3, 1500000, 40000000, 10000000),
     ("fz_depinfo", CORE_LIBS, "depinfo.dict", 2, 3000000, 90000000, 30000000),
@@ -150,11 +150,11 @@ def parse_stats(err):
 def fuzz_job(job):
     """One chain of libFuzzer processes over one output corpus: a new process (new seed) every `chunk` executions and after
     every artifact, until the run budget is used."""
-    name, binp, runs, chunk, seed, outdir, seeddir, artdir, dictp, watchdog = job
+    name, binp, runs, chunk, seed, outdir, seeddir, artdir, dictp, watchdog, max_stops = job
     os.makedirs(outdir, exist_ok=True)
     os.makedirs(artdir, exist_ok=True)
     done, procs, artifacts, stats, notes = 0, 0, 0, [], []
-    while done < runs and artifacts <= 8:
+    while done < runs and artifacts <= max_stops:
         cmd = [binp, "-runs=%d" % min(chunk, runs - done), "-seed=%d" % ((seed + 7919 * procs) % 2147483647 or 1),
                "-artifact_prefix=%s/" % artdir, "-dict=%s" % dictp] + LIBFUZZER_FLAGS + [outdir, seeddir]
         rc, out, err, to = vlib.run_child(wrap(name, cmd), watchdog, env=JOB_ENV)
@@ -218,7 +218,7 @@ def fuzz_phase(chk, tier, sd, bins):
             seed = (chk.seed * 1000003 + ti * 1009 + j * 17 + 1) % 2147483647 or 1
             jobs.append((name, bins[name], rq if tier == "quick" else rt, chunk, seed, os.path.join(sd, "corpus", name, str(j)),
                          os.path.join(sd, "merged", name), os.path.join(sd, "artifacts", name, str(j)), os.path.join(seeddir, dictn),
-                         3600 if tier == "quick" else 6 * 3600))
+                         3600 if tier == "quick" else 6 * 3600, 8 if tier == "quick" else 40))
     results = vlib.pmap(fuzz_job, jobs, workers=len(jobs))
     per = {}
     for name in [t[0] for t in TARGETS]:
@@ -258,6 +258,8 @@ def fuzz_phase(chk, tier, sd, bins):
                 by_key[k] = (name, path, key, info)
         elif verdict == "not-judged":
             per[name].setdefault("not_judged", collections.Counter())[key] += 1
+            if os.path.getsize(path) < per[name].get("_njs", (1 << 30, None))[0]:
+                per[name]["_njs"] = (os.path.getsize(path), open(path, "rb").read()[:400].decode("latin-1"))
         else:
             # oom-: the 2 GB limit was reached by what the process had accumulated (the loader leaks its Manifest objects), not by
             # this input; timeout-/slow-unit-: the input finishes quickly when it has a core for itself. Counted, not judged.
@@ -268,6 +270,8 @@ def fuzz_phase(chk, tier, sd, bins):
     for k, (name, path, key, info) in sorted(by_key.items()):
         chk.violation(k, hexdump_witness(name, path, key, info))
     for name in per:
+        if "_njs" in per[name]:
+            per[name]["not_judged_smallest_input"] = per[name].pop("_njs")[1]
         for f in ("artifacts", "not_judged", "not_reproduced_alone"):
             if f in per[name]:
                 per[name][f] = dict(per[name][f])
@@ -301,12 +305,12 @@ def yaml_case(args):
     return idx, cat, res
 
 
-def yaml_phase(chk, tier, sd):
-    shapes = c19_yaml.generate(chk.seed, tier)
+def yaml_phase(seed, tier, sd, workers):
+    shapes = c19_yaml.generate(seed, tier)
     d = os.path.join(sd, "yaml")
     os.makedirs(d, exist_ok=True)
     bins = [("asan", vlib.llbuild_bin("asan")), ("fuzz", vlib.llbuild_bin("fuzz"))]
-    res = vlib.pmap(yaml_case, [(i, c, t, d, bins) for i, (c, t) in enumerate(shapes)])
+    res = vlib.pmap(yaml_case, [(i, c, t, d, bins) for i, (c, t) in enumerate(shapes)], workers=workers)
     cats = collections.Counter(c for c, _ in shapes)
     outcome = collections.Counter()
     assert_only = 0
@@ -335,10 +339,8 @@ def yaml_phase(chk, tier, sd):
                 by_key[k] = {"target": "buildsystem-parse", "flavor": fl, "shape": cat, "yaml": text if len(text) < 20000 else text[:20000],
                              "yaml_truncated": len(text) >= 20000, "yaml_hex": text.encode("utf-8", "surrogatepass").hex() if len(text) < 200000 else None,
                              "rc": v["rc"], "stderr": v["err"], "asan": {"rc": a["rc"], "key": a["key"]}, "fuzz": {"rc": f["rc"], "key": f["key"]}}
-    for k, w in sorted(by_key.items()):
-        chk.violation(k, w)
     return dict(shapes=len(shapes), by_category=dict(cats), outcomes=dict(outcome), shapes_with_loader_errors=with_errors,
-                assertion_only_in_assert_build=assert_only, process_runs=2 * len(shapes)), len(by_key), shapes
+                assertion_only_in_assert_build=assert_only, process_runs=2 * len(shapes)), by_key, shapes
 
 
 # ------------------------------------------------------------------ replay
@@ -389,8 +391,24 @@ def run(tier, replay):
     try:
         vlib.build_flavor("asan")
         bins = {t[0]: build_target(t[0], t[1]) for t in TARGETS}
+        # the shape runs use a quarter of the cores next to the fuzzing jobs (the short fuzzing jobs free their cores early)
+        vlib.build_flavor("fuzz")
+        ybox = {}
+        def ythread():
+            try:
+                ybox["r"] = yaml_phase(chk.seed, tier, sd, max(2, vlib.NCPU // 4))
+            except Exception as ex:          # reported below, never lost
+                ybox["e"] = ex
+        th = threading.Thread(target=ythread)
+        th.start()
         per, tri, nviol_f = fuzz_phase(chk, tier, sd, bins)
-        ycov, nviol_y, shapes = yaml_phase(chk, tier, sd)
+        th.join()
+        if "e" in ybox:
+            raise ybox["e"]
+        ycov, yviol, shapes = ybox["r"]
+        for k, w in sorted(yviol.items()):
+            chk.violation(k, w)
+        nviol_y = len(yviol)
         execs = sum(p["executions"] for p in per.values())
         distinct = sum(p["corpus_units_distinct"] for p in per.values()) + ycov["shapes"]
         chk.add(execs + ycov["process_runs"], distinct)
